@@ -535,36 +535,27 @@ fn special_refs_updates<'a>(
 
     let mut updates = Updates::default();
 
-    for (remote_id, mut refs) in grouped {
-        // N.b. the remote decides the order in which it lists its
-        // references. The `rad/id` update must come first: if it
-        // aborts the transaction, nothing of this remote, and in
-        // particular not its `rad/sigrefs`, has been applied yet.
-        refs.sort_by_key(|(_, suffix)| !matches!(suffix, Left(refs::Special::Id)));
-        let mut tips_inner = Vec::with_capacity(2);
+    for (remote_id, refs) in grouped {
+        // N.b. the remote decides in which order, and how many
+        // times, it lists its references. Keep one update per
+        // special reference, the last one listed, which is the one
+        // recorded in the fetch state, and put `rad/id` first: if
+        // that update aborts the transaction, nothing of this remote,
+        // in particular not its `rad/sigrefs`, has been applied yet.
+        let mut id = None;
+        let mut sigrefs = None;
         for (tip, suffix) in &refs {
+            let update = refs::special_update(&remote_id, suffix, *tip, |remote| {
+                delegates.contains(remote)
+            });
             match &suffix {
-                Left(refs::Special::Id) => {
-                    if let Some(u) = refs::special_update(&remote_id, suffix, *tip, |remote| {
-                        delegates.contains(remote)
-                    }) {
-                        tips_inner.push(u);
-                    }
-                }
-
-                Left(refs::Special::SignedRefs) => {
-                    if let Some(u) = refs::special_update(&remote_id, suffix, *tip, |remote| {
-                        delegates.contains(remote)
-                    }) {
-                        tips_inner.push(u);
-                    }
-                }
-
+                Left(refs::Special::Id) => id = update,
+                Left(refs::Special::SignedRefs) => sigrefs = update,
                 Right(_) => continue,
             }
         }
 
-        updates.append(remote_id, tips_inner);
+        updates.append(remote_id, id.into_iter().chain(sigrefs).collect());
     }
 
     Ok(updates)
